@@ -17,52 +17,55 @@ Proof. intros. nia. Qed.
 Lemma mul_lt_r : forall x y p, 0 < p -> x < y -> x * p < y * p.
 Proof. intros. nia. Qed.
 
+Lemma cmpabsI_cases : forall a b,
+  (cmpabsI a b < 0 /\ Z.abs a < Z.abs b) \/ (cmpabsI a b = 0 /\ Z.abs a = Z.abs b) \/ (0 < cmpabsI a b /\ Z.abs b < Z.abs a).
+Proof. intros a b. destruct (cmpabsI_spec a b) as (A & B & C). lia. Qed.
+
 Lemma absCompare_spec : forall a b, wf a -> wf b ->
   (absCompare a b < 0 <-> Z.abs (num a) * den b < Z.abs (num b) * den a) /\
   (absCompare a b = 0 <-> Z.abs (num a) * den b = Z.abs (num b) * den a) /\
   (0 < absCompare a b <-> Z.abs (num b) * den a < Z.abs (num a) * den b).
 Proof.
   intros [na da] [nb db] [Ha Za] [Hb Zb]. unfold absCompare. cbn [num den fst snd] in *. cbv zeta.
-  destruct (cmpabsI_spec na nb) as (N1 & N2 & N3).
-  destruct (cmpabsI_spec da db) as (D1 & D2 & D3).
-  destruct (cmpabsI_spec (na * db) (da * nb)) as (P1 & P2 & P3).
-  rewrite !Z.abs_mul in P1, P2, P3.
-  rewrite (Z.abs_eq da), (Z.abs_eq db) in * by lia.
-  assert (Xa := Z.abs_nonneg na). assert (Xb := Z.abs_nonneg nb).
-  assert (Za' : Z.abs na = 0 -> da = 1) by lia. assert (Zb' : Z.abs nb = 0 -> db = 1) by lia.
+  assert (Za' : Z.abs na = 0 -> da = 1) by (intros H0; apply Za; lia).
+  assert (Zb' : Z.abs nb = 0 -> db = 1) by (intros H0; apply Zb; lia).
   clear Za Zb.
+  assert (N := cmpabsI_cases na nb). assert (D := cmpabsI_cases da db).
+  assert (P := cmpabsI_cases (na * db) (da * nb)).
+  rewrite !Z.abs_mul in P. rewrite (Z.abs_eq da), (Z.abs_eq db) in * by lia.
+  assert (Xa := Z.abs_nonneg na). assert (Xb := Z.abs_nonneg nb).
   set (x := Z.abs na) in *. set (y := Z.abs nb) in *. clearbody x y.
   set (cn := cmpabsI na nb) in *. set (cd := cmpabsI da db) in *. set (cp := cmpabsI (na * db) (da * nb)) in *.
   clearbody cn cd cp. replace (da * y) with (y * da) in * by ring.
   destruct (Z.eqb_spec cn (-1)); cbn [andb].
-  { assert (Lxy : x < y) by lia.
+  { assert (Lxy : x < y) by lia. clear N.
     destruct (Z.eqb_spec cd 1); cbn [andb].
-    { assert (L := mul_lt_mono_both x y db da Xa Lxy Hb ltac:(lia)). lia. }
+    { assert (L := mul_lt_mono_both x y db da Xa Lxy Hb ltac:(lia)). clear D P. lia. }
     destruct (Z.eqb_spec cn 1); [lia|]. cbn [andb].
     destruct (Z.eqb_spec cn 0); [lia|].
-    destruct (Z.eqb_spec cd 0); [|lia].
-    assert (da = db) by lia. subst db. assert (L := mul_lt_r x y da Ha Lxy). lia. }
+    destruct (Z.eqb_spec cd 0); [|clear D; lia].
+    assert (da = db) by lia. subst db. assert (L := mul_lt_r x y da Ha Lxy). clear D P. lia. }
   destruct (Z.eqb_spec cn 1); cbn [andb].
-  { assert (Lyx : y < x) by lia.
+  { assert (Lyx : y < x) by lia. clear N.
     destruct (Z.eqb_spec cd (-1)).
-    { assert (L := mul_lt_mono_both y x da db Xb Lyx Ha ltac:(lia)). lia. }
+    { assert (L := mul_lt_mono_both y x da db Xb Lyx Ha ltac:(lia)). clear D P. lia. }
     destruct (Z.eqb_spec cn 0); [lia|].
-    destruct (Z.eqb_spec cd 0); [|lia].
-    assert (da = db) by lia. subst db. assert (L := mul_lt_r y x da Ha Lyx). lia. }
+    destruct (Z.eqb_spec cd 0); [|clear D; lia].
+    assert (da = db) by lia. subst db. assert (L := mul_lt_r y x da Ha Lyx). clear D P. lia. }
   destruct (Z.eqb_spec cn 0).
-  { assert (E : x = y) by lia. subst y.
+  { assert (E : x = y) by lia. subst y. clear N P.
     assert (C : x = 0 \/ 0 < x) by lia. destruct C as [C | C].
     - assert (da = 1) by lia. assert (db = 1) by lia. subst. lia.
-    - assert (C3 : da < db \/ da = db \/ db < da) by lia. destruct C3 as [C3 | [C3 | C3]].
-      + assert (L := mul_lt_l x da db C C3). lia.
+    - destruct D as [[D1 D2] | [[D1 D2] | [D1 D2]]].
+      + assert (L := mul_lt_l x da db C D2). lia.
       + subst db. lia.
-      + assert (L := mul_lt_l x db da C C3). lia. }
-  destruct (Z.eqb_spec cd 0); [|lia].
-  assert (da = db) by lia. subst db.
-  assert (C3 : x < y \/ x = y \/ y < x) by lia. destruct C3 as [C3 | [C3 | C3]].
-  - assert (L := mul_lt_r x y da Ha C3). lia.
+      + assert (L := mul_lt_l x db da C D2). lia. }
+  destruct (Z.eqb_spec cd 0); [|clear N D; lia].
+  assert (da = db) by lia. subst db. clear D P.
+  destruct N as [[N1 N2] | [[N1 N2] | [N1 N2]]].
+  - assert (L := mul_lt_r x y da Ha N2). lia.
   - subst y. lia.
-  - assert (L := mul_lt_r y x da Ha C3). lia.
+  - assert (L := mul_lt_r y x da Ha N2). lia.
 Qed.
 
 Lemma rcompare_spec : forall a b, wf a -> wf b ->
